@@ -422,8 +422,11 @@ def di_obj(t):
 def ci_obj(t):
     return CI.build(CI.apply_spec(CI.seed_flat(), ["rel", "name", t]))
 out = {"encoding": locale.getpreferredencoding(False)}
-for fmt, mk, dump in (("treeinfo", ti_obj, lambda o, p: o.dump(p)), ("discinfo", di_obj, lambda o, p: o.dump(p)),
-                      ("composeinfo", ci_obj, lambda o, p: o.dump(p))):
+TEXTS = {"": text, ":line-separators": "Fedora\u2028 21 a\x85b\u2029c"}      # (the second: only characters str.splitlines() splits at)
+for suffix, text in sorted(TEXTS.items()):
+  for fmt, mk, dump in (("treeinfo", ti_obj, lambda o, p: o.dump(p)), ("discinfo", di_obj, lambda o, p: o.dump(p)),
+                        ("composeinfo", ci_obj, lambda o, p: o.dump(p))):
+    fmt = fmt + suffix
     out[fmt] = {}
     for pre in ("absent", "existing"):
         tmp = tempfile.mkdtemp(prefix="c18-lc-")
@@ -511,7 +514,8 @@ def run_unit(unit, acc):
     if unit[0] == "locale":
         res = eval_locale(unit[1])
         acc.extra["ascii_locale_encoding"] = res["encoding"]
-        for fmt in ("treeinfo", "discinfo", "composeinfo"):
+        for fmt in ("treeinfo", "discinfo", "composeinfo", "treeinfo:line-separators", "discinfo:line-separators",
+                    "composeinfo:line-separators"):
             for pre in ("absent", "existing"):
                 o = res[fmt][pre]
                 acc.ev()
